@@ -106,7 +106,7 @@ CLAIMED["C13"] = dict(
    text="Fault enumeration over 12 constructors (NewIO, NewTimer, Dial tcp/udp, Listen, accept sync+async, NewPacketConn, NewUDPPeer, Open, websocket Handshake and AsyncHandshake, NewMirroredBuffer on the real kernel): the successful build is measured and every k-th call of every kind it makes is failed once (EMFILE at the k-th allocation for every k, realistic errnos otherwise), "
         "plus refused/unreachable/time-out/bind conflict/non-local bind/bad, truncated or wrong-key handshake response/server close or reset mid-handshake. The stub kernel's exact census (number:kind:generation) must be what it was before after a failure, and after Close of a success. Both handshake constructors repeat the whole enumeration on one Stream that has had a complete session before every failing attempt. "
         "Seeded exploration on top: repeated Close (and Cancel-after-Close, conn-close-after-adapter-close) on every object kind interleaved with creation of other objects so that numbers are reused - any close of a generation the object does not own is flagged, and a connection dialled after the first Close (it gets the released number) with a read parked on it and no reference kept must survive the repeated Closes and a forced collection and complete once; and GC at tape-chosen instants with reads and/or writes deferred after the program dropped every reference (weak pointer to a sentinel captured only by the callbacks), including between the completion of one direction and the other, with the completion required afterwards.",
-   note="Fault points are enumerated over the kernel calls the stub sees, not over Go allocations. Constructors are built with options so that every socket option is a fault point; one scenario reconnects from inside a completion handler (close, dial, deferred read on the reused descriptor number, no reference kept) before the collection. The stub net.Conn models RawConn.Control's descriptor reference (a Close inside the callback blocks, as on the live runtime).")
+   note="Fault points are enumerated over the kernel calls the stub sees, not over Go allocations. Constructors are built with options so that every socket option is a fault point; one scenario reconnects from inside a completion handler (close, dial, deferred read on the reused descriptor number, no reference kept) before the collection. The stub net.Conn models RawConn.Control's descriptor reference (a Close inside the callback blocks, as on the live runtime). A further scenario closes a connection with a read and/or a write registered with the poller while the deregistration fails (one epoll_ctl of Close refused with ENOMEM, or the IO closed before the connection): whatever Close returns, the census must return to what it was before NewIO (found and led to the repair 559d0ff).")
 CLAIMED["C09"] = dict(
    technique="model conformance over seeded call histories, with simulated readers/writers for the I/O methods (short, zero-byte and failing reads, short and failing writes, deferred completions)",
    text="Call histories over the whole public API (Write/WriteByte/WriteString, Claim, ClaimFixed, Commit, Consume, Save, Discard, DiscardAll, Reserve, ShrinkBy, ShrinkTo, PrepareRead, Read, ReadByte, ReadFrom, WriteTo, AsyncReadFrom, AsyncWriteTo, Reset) with integer arguments from the classes {MinInt, <0, 0, 1, avail-1, avail, avail+1, large, MaxInt}, growth across reallocation, and simulated transports for the I/O methods. "
